@@ -544,6 +544,31 @@ func run(r *mon.Run) {
 		shared[i] = o.build(r.Rand("order-d", i))
 	}
 	batchNo := 0
+	// every operation gets its own batch in which 8 goroutines hammer that one operation on the one shared input
+	for oi := range all {
+		batchNo++
+		if !r.Mine(batchNo) {
+			continue
+		}
+		ol := &orderLog{}
+		var wg sync.WaitGroup
+		start := make(chan struct{})
+		for gi := 0; gi < 8; gi++ {
+			wg.Add(1)
+			yg := r.Rand(fmt.Sprintf("yield-hammer-%d", oi), gi)
+			go func(gi int) {
+				defer wg.Done()
+				<-start
+				for k := 0; k < 4; k++ {
+					record(gi+1, all[oi], "shared", "concurrent-hammer-8", shared[oi], &yieldingWriter{g: gi, yield: yg, order: ol, active: true})
+				}
+			}(gi)
+		}
+		close(start)
+		wg.Wait()
+		h := sha256.Sum256(ol.seq)
+		interleavings[hex.EncodeToString(h[:8])] = true
+	}
 	for _, n := range []int{2, 8, 32} {
 		for b := 0; b < batches; b++ {
 			batchNo++
